@@ -62,6 +62,7 @@ type B struct {
 	conflictLeft  map[int]int     // label -> how many more of its resume requests are answered RESUME_REQUEST_CONFLICT
 	conflictDef   int             // default for labels not yet in conflictLeft
 	conflicted    map[int]int     // label -> conflict answers given so far
+	conflictsOn   map[[2]int]int  // (label, generation) -> conflict answers given on that wire connection
 	noAnswer      map[string]bool // kinds never answered (pending calls / metadata)
 	DialDelay     atomic.Int64
 	DialRefuse    atomic.Int32 // refuse this many dials outright (no transport)
@@ -72,7 +73,7 @@ type B struct {
 
 func New() *B {
 	b := &B{streams: map[uuid.UUID]*streamInfo{}, byLabel: map[int]uuid.UUID{}, genOf: map[int]int{},
-		refuse: map[int]bool{}, refusedOn: map[int]int{}, conflictLeft: map[int]int{}, conflicted: map[int]int{}, holdClose: map[int]bool{}, heldCloses: map[int][]func(){}, noAnswer: map[string]bool{}, DialStarted: make(chan int, 256), nextAlias: 10}
+		refuse: map[int]bool{}, refusedOn: map[int]int{}, conflictLeft: map[int]int{}, conflicted: map[int]int{}, conflictsOn: map[[2]int]int{}, holdClose: map[int]bool{}, heldCloses: map[int][]func(){}, noAnswer: map[string]bool{}, DialStarted: make(chan int, 256), nextAlias: 10}
 	b.Broker = broker.New(b.handle)
 	b.Broker.OnDial = func(idx int, c transport.DialConfig) error {
 		select {
@@ -273,6 +274,7 @@ func (b *B) handle(s *broker.Session, m message.Message) {
 			return
 		}
 		if known && b.takeConflict(label) {
+			b.noteConflict(label, s.Idx)
 			s.Send(&message.UpstreamResumeResponse{RequestID: v.RequestID, ResultCode: message.ResultCodeResumeRequestConflict, ResultString: "conflict"})
 			return
 		}
@@ -302,6 +304,7 @@ func (b *B) handle(s *broker.Session, m message.Message) {
 			return
 		}
 		if known && b.takeConflict(label) {
+			b.noteConflict(label, s.Idx)
 			s.Send(&message.DownstreamResumeResponse{RequestID: v.RequestID, ResultCode: message.ResultCodeResumeRequestConflict, ResultString: "conflict"})
 			return
 		}
@@ -543,3 +546,18 @@ func (b *B) takeConflict(label int) bool {
 
 // Conflicted returns how many RESUME_REQUEST_CONFLICT answers the stream has been given.
 func (b *B) Conflicted(label int) int { b.mu.Lock(); defer b.mu.Unlock(); return b.conflicted[label] }
+
+func (b *B) noteConflict(label, sess int) {
+	b.mu.Lock()
+	defer b.mu.Unlock()
+	if g, ok := b.genOf[sess]; ok {
+		b.conflictsOn[[2]int{label, g}]++
+	}
+}
+
+// ConflictsOn returns how many RESUME_REQUEST_CONFLICT answers the stream got on that generation.
+func (b *B) ConflictsOn(label, gen int) int {
+	b.mu.Lock()
+	defer b.mu.Unlock()
+	return b.conflictsOn[[2]int{label, gen}]
+}
